@@ -249,15 +249,18 @@ func c08Describe(m map[string]string) string {
 
 // c08Payload draws a payload: for flows and quotas, nothing / a replacement of the existing
 // file / a new file / both; contents decodable or not; optionally a gateway config.
-func c08Payload() *stream_config.ConfigurationPayload {
+func c08Payload() *stream_config.ConfigurationPayload { return c08PayloadOf("", false) }
+
+// c08PayloadOf: input names carry the prefix pre; plain = every part decodable, no gateway config.
+func c08PayloadOf(pre string, plain bool) *stream_config.ConfigurationPayload {
 	p := stream_config.NewConfigurationPayload()
 	content := func(tag, text string) string {
-		if verifBool(tag + "_undecodable") {
+		if !plain && verifBool(pre+tag+"_undecodable") {
 			return "!!" + text
 		}
 		return "b64(" + text + ")"
 	}
-	switch verifChoose("flows", 4) {
+	switch verifChoose(pre+"flows", 4) {
 	case 1:
 		p.Flows = map[string]string{"f1.yaml": content("f1", "flow-one-v2")}
 	case 2:
@@ -265,13 +268,13 @@ func c08Payload() *stream_config.ConfigurationPayload {
 	case 3:
 		p.Flows = map[string]string{"f1.yaml": content("f1", "flow-one-v2"), "f2.yaml": content("f2", "flow-two")}
 	}
-	switch verifChoose("quotas", 3) {
+	switch verifChoose(pre+"quotas", 3) {
 	case 1:
 		p.Quotas = map[string]string{"q1.yaml": content("q1", "quota-one-v2")}
 	case 2:
 		p.Quotas = map[string]string{"q2.yaml": content("q2", "quota-two")}
 	}
-	if verifBool("gateway") {
+	if !plain && verifBool(pre+"gateway") {
 		p.GatewayConfig = content("gw", "gateway-v2")
 	}
 	return p
@@ -302,6 +305,40 @@ func c08Setup() {
 // were before and the engine still serves the configuration it served before.
 func VerifC08Update() {
 	c08Setup()
+	rd := &HandlingDataManager{}
+	c08UpdateOn(rd)
+}
+
+// VerifC08TwoUpdates: the same gateway process handles two updates in a row: first an
+// accepted, fault-free one (either endpoint, any combination of flow and quota files,
+// which may remove files), then an arbitrary one as in VerifC08Update. What the second
+// update must leave untouched when it is rejected is the state after the first.
+func VerifC08TwoUpdates() {
+	c08Setup()
+	rd := &HandlingDataManager{}
+	c08.payload = c08PayloadOf("r1_", true)
+	c08.decodeOK = true
+	c08.faults = 0
+	c08.reloads = []bool{true, true}
+	var first func(http.ResponseWriter, *http.Request)
+	if verifChoose("r1_mode", 2) == 0 {
+		first = rd.handleConfiguration()
+	} else {
+		first = rd.handleApplyFlows()
+	}
+	first(&c08Writer{h: http.Header{}}, &http.Request{Method: http.MethodPut})
+	verifAssert(c08.status == 200, "a decodable, fault-free update whose reload succeeds is accepted")
+	if c08.status != 200 {
+		return
+	}
+	verifAssert(c08SameFS(c08.loadedFrom, c08Snapshot()), "accepted update: the engine was not reloaded from the final disk content")
+	verifReach("first-accepted")
+	c08.status = 0
+	c08.reloaded = 0
+	c08UpdateOn(rd)
+}
+
+func c08UpdateOn(rd *HandlingDataManager) {
 	before := c08Snapshot()
 	c08.payload = c08Payload()
 	c08.decodeOK = !verifBool("body_undecodable")
@@ -310,7 +347,6 @@ func VerifC08Update() {
 	if !c08.reloads[0] {
 		c08.reloadFailsLate = verifBool("reload_fails_late")
 	}
-	rd := &HandlingDataManager{}
 	var handler func(http.ResponseWriter, *http.Request)
 	if verifParam("mode", 0) == 0 {
 		handler = rd.handleConfiguration()
